@@ -12,6 +12,7 @@ import TpmModel.RcSpec
 import TpmModel.Front
 import TpmModel.Cache
 import TpmModel.Print
+import TpmModel.Relax
 import TpmModel.Obj
 import TpmModel.Cli
 /-! Line-protocol driver: one operation per input line, canonical observation lines + `END` per operation. -/
@@ -119,6 +120,12 @@ def handleRaw (line : String) : List String :=
   | ["DEC", mode, ty, cc, enc, hex] =>
     match parseTop ty cc enc, bytesOfHex hex with
     | some top, some bs => (marshalRun (mode == "S") Generated.msgTables top bs).lines (mode == "S")
+    | none, _ => ["X unknown-type " ++ ty]
+    | _, none => ["X bad-hex"]
+  | ["DECL", ty, cc, enc, hex] =>
+    -- the lenient interpretation: strict decoding under the relaxed tables
+    match parseTop ty cc enc, bytesOfHex hex with
+    | some top, some bs => (marshalRun true Generated.msgTables.relax top.relax bs).lines true
     | none, _ => ["X unknown-type " ++ ty]
     | _, none => ["X bad-hex"]
   | ["DECU", mode, ty, cc, enc, hex] =>
